@@ -50,7 +50,8 @@ def strategy(tier):
     return _case(tier)
 
 
-_TOKEN = re.compile(r"[A-Za-z_][A-Za-z_0-9\.]*|\d+|'[^']*'")
+# dotted names end at their last identifier character ("... | vlib.hints.VSupportsFoo." ends a sentence, not the name)
+_TOKEN = re.compile(r"[A-Za-z_][A-Za-z_0-9]*(?:\.[A-Za-z_][A-Za-z_0-9]*)*|\d+|'[^']*'")
 
 
 def _names_hint(hint_repr, msg):
